@@ -81,6 +81,33 @@ PROPS = {
         level_note="trusted: ICU 15 data/algorithm on the stable alphabet, ref_punycode.h, WPT vectors; Unicode 16/17-only code points are covered only by vectors and laws",
         exhaustive=False,
     ),
+    "C08": dict(
+        legs=[dict(monitor="limit", config="asan", name="limit:c08/asan", args=["--mode", "c08"], cases=K(200000, 20000000))],
+        rule="(input, base) pairs from WPT, grammar, mutation and growth-prone shapes, each evaluated under the default limit and under limits within "
+             "+-4 of |input|, |input|+|base|, 3x that and the unlimited result size; can_parse / ada_can_parse[_with_base] must equal the success of "
+             "parse(base) then parse(input, &base) under the same limit. Non-trivial: the fast scanner gave a definite answer or the size_safe / "
+             "full-parse branch ran (hook counters). Distinct: (scanner verdict, fallback kind, limit relation, outcome, base?).",
+        floors=dict(any={"can_parse_expected_true": 10000, "can_parse_expected_false": 10000, "hook.canparse_fast_true": 1000, "hook.canparse_fast_false": 100,
+                         "hook.canparse_size_safe": 1000, "hook.canparse_full": 1000}),
+        assumptions=["oracle is ada::parse itself under the same limit (single-threaded harness toggles the global)"],
+        technique="differential runtime monitor (can_parse vs parse) across limits, hook counters attribute the internal branch, under ASan/UBSan",
+        level_text="Every (input, base, limit) triple is decided by running the real parser; held = no disagreement on 10^6-10^8 triples with all four can_parse branches observed.",
+        level_note="a defect shared by parse and can_parse is invisible here (C01)",
+    ),
+    "C09": dict(
+        legs=[dict(monitor="limit", config="asan", name="limit:c09/asan", args=["--mode", "c09"], cases=K(200000, 20000000))],
+        rule="parses (+base) and setter histories of growth-prone inputs under a limit L chosen within a few bytes of the input size or of the unlimited "
+             "result size; checked: href size <= L after every success, refusal leaves all observables unchanged, and each operation is compared with the "
+             "same operation on a clone run with the limit lifted (must be identical if argument and unlimited result fit, must fail atomically if the "
+             "unlimited result exceeds L). Non-trivial: unlimited result size differs from input size and L within +-3 of it. "
+             "Distinct: (setter or parse exit, relation of L to sizes, refused?).",
+        floors=dict(any={"operations_that_would_exceed_limit": 1000, "operations_fitting_compared_with_unlimited": 10000, "parses_with_limit_within_3_of_result": 1000,
+                         "hook.parse_exit_early": 1000}),
+        assumptions=["'would exceed L' is decided by the same operation on a clone with the limit lifted", "single-threaded harness toggles the global limit"],
+        technique="invariant + differential-against-unlimited-clone runtime monitor over growth-prone workloads, under ASan/UBSan",
+        level_text="Size invariant, atomic refusal and equality with the unlimited run are evaluated for every parse and setter call generated.",
+        level_note="limits only up to a few hundred bytes are exercised (behaviour near 2^32 is not)",
+    ),
     "C16": dict(
         legs=[dict(monitor="idna", config="asan", name="idna:c16/asan", args=["--mode", "c16"], cases=K(300000, 30000000))],
         rule="pairs of domain spellings related by a generator-known equivalence (NFD form, reordering of adjacent marks with distinct non-zero ccc, ASCII case, "
